@@ -7,7 +7,7 @@ from fractions import Fraction
 from vf import vcalg
 
 
-def real_outputs(smt2, in_base="VF_INP", out_base="VF_OUT", extra_inputs=()):
+def real_outputs(smt2, in_base="VF_INP", out_base="VF_OUT", extra_inputs=(), counts=None):
     """evaluates the harness outputs in the Real domain.
     returns (dom, inputs: index->atom id, outputs: index->RPoly, stats)"""
     t0 = time.time()
@@ -18,6 +18,8 @@ def real_outputs(smt2, in_base="VF_INP", out_base="VF_OUT", extra_inputs=()):
     for base in (in_base,) + tuple(extra_inputs):
         fin = vc.final_versions(base)
         for i in sorted(fin):
+            if counts is not None and i >= counts.get(base, 1 << 60):
+                continue  # dummy element of a zero-length operand
             p = ev.ev(fin[i])
             if not (isinstance(p, vcalg.RPoly) and len(p.t) == 1 and list(p.t.values())[0] == ((1, 0), 0.0) and len(list(p.t)[0]) == 1):
                 raise vcalg.Unsupported("harness input %s[%d] is not a free symbol: %r" % (base, i, p.t if isinstance(p, vcalg.RPoly) else p))
@@ -25,6 +27,8 @@ def real_outputs(smt2, in_base="VF_INP", out_base="VF_OUT", extra_inputs=()):
     outs = {}
     fin = vc.final_versions(out_base)
     for i in sorted(fin):
+        if counts is not None and i >= counts.get(out_base, 1 << 60):
+            continue
         outs[i] = ev.ev(fin[i])
     stats = {"vc_definitions": len(vc.defs), "fp_operations_interpreted": dom.nops, "atoms": len(dom.names),
              "parse_eval_s": round(time.time() - t0, 2)}
